@@ -53,7 +53,17 @@ pub fn point_plane_jacobian_rev(p: &Point3, c: &SurfacePoint3, params: &RcParams
     // The point with relation to the current center of rotation
     let from_rc = Point3::from(c.point - params.current_rc());
 
-    point_plane_core(-s, c, from_rc, params)
+    let mut result = point_plane_core(-s, c, from_rc, params);
+
+    // Moving the reference also rotates its normal, which changes the projection of the offset
+    // whenever the offset is not parallel to the normal
+    let offset = p - c.point;
+    let n = c.normal.into_inner();
+    result[3] += s * (params.rotations().rd.x * n).dot(&offset);
+    result[4] += s * (params.rotations().rd.y * n).dot(&offset);
+    result[5] += s * (params.rotations().rd.z * n).dot(&offset);
+
+    result
 }
 
 fn point_plane_core(s: f64, c: &SurfacePoint3, from_rc: Point3, params: &RcParams3) -> T3Storage {
